@@ -147,13 +147,17 @@ Proof. reflexivity. Qed.
 Lemma order_ids s : s_order s = s_order (erase_ids s).
 Proof. reflexivity. Qed.
 
-Lemma map_erase_sym_ids l l' : map erase_ids l = map erase_ids l' -> map erase_sym l = map erase_sym l'.
+Lemma map_erase_sym_ids l : forall l', map erase_ids l = map erase_ids l' -> map erase_sym l = map erase_sym l'.
 Proof.
-  intros H. rewrite (map_ext _ _ erase_sym_ids l), (map_ext _ _ erase_sym_ids l'), <- !map_map. now rewrite H.
+  induction l as [|a l IH]; intros [|b l'] H; cbn [map] in H; try discriminate; [reflexivity|].
+  pose proof (f_equal (hd a) H) as H1; pose proof (f_equal (@tl _) H) as H2; cbn [hd tl map] in H1, H2.
+  cbn [map]. rewrite (IH _ H2), (erase_sym_ids a), (erase_sym_ids b), H1. reflexivity.
 Qed.
-Lemma map_order_ids l l' : map erase_ids l = map erase_ids l' -> map s_order l = map s_order l'.
+Lemma map_order_ids l : forall l', map erase_ids l = map erase_ids l' -> map s_order l = map s_order l'.
 Proof.
-  intros H. rewrite (map_ext _ _ order_ids l), (map_ext _ _ order_ids l'), <- !map_map. now rewrite H.
+  induction l as [|a l IH]; intros [|b l'] H; cbn [map] in H; try discriminate; [reflexivity|].
+  pose proof (f_equal (hd a) H) as H1; pose proof (f_equal (@tl _) H) as H2; cbn [hd tl map] in H1, H2.
+  cbn [map]. rewrite (IH _ H2), (order_ids a), (order_ids b), H1. reflexivity.
 Qed.
 
 Definition tail_copy (ss : list osym) (n : nat) : list osym * nat :=
@@ -163,6 +167,12 @@ Proof.
   destruct ss as [|s0 tl]; [reflexivity|]. unfold tail_copy. rewrite fst_let. cbn [map]. now rewrite copy_syms_erase.
 Qed.
 
+Lemma merge_cons D0 Dc subs s r k :
+  fst (merge_dims D0 Dc subs (s :: r) k)
+  = if Nat.eqb (s_did s) D0 then set_dims Dc [subs] s :: fst (merge_dims D0 Dc subs r k)
+    else set_dims k [hd [] (s_dims s) ++ subs] s :: fst (merge_dims D0 Dc subs r (S k)).
+Proof. cbn [merge_dims]. destruct (Nat.eqb (s_did s) D0); rewrite fst_let; reflexivity. Qed.
+
 Lemma merge_spec cl P T D0 Dc subs v : c_dims cl = Some subs -> v_dimsmerge v = true ->
   forall ds c n k, D0 < n ->
   map erase_sym (fst (merge_dims D0 Dc subs (map (set_type (c_type cl)) (pre_syms cl P T D0 ds c n)) k))
@@ -170,14 +180,14 @@ Lemma merge_spec cl P T D0 Dc subs v : c_dims cl = Some subs -> v_dimsmerge v = 
   /\ map s_order (fst (merge_dims D0 Dc subs (map (set_type (c_type cl)) (pre_syms cl P T D0 ds c n)) k))
      = seq c (length ds).
 Proof.
-  intros Hc Hv. induction ds as [|d r IH]; intros c n k Hn; cbn [pre_syms map merge_dims]; [now split|].
-  unfold set_type at 1 3. cbn [s_did].
+  intros Hc Hv. induction ds as [|d r IH]; intros c n k Hn; cbn [pre_syms map]; [now split|].
+  rewrite merge_cons. cbn [s_did set_type].
   destruct (d_dims d) eqn:Hd.
   - replace (Nat.eqb n D0) with false by (symmetry; apply Nat.eqb_neq; lia).
-    rewrite !fst_let. cbn [map length seq]. unfold step_next; rewrite Hd.
+    cbn [map length seq]. unfold step_next; rewrite Hd.
     destruct (IH (S c) (S n) (S k) ltac:(lia)) as [E1 E2]. rewrite E1, E2. split; [|reflexivity].
     f_equal. unfold spec_sym, spec_dims, erase_sym, set_dims, own_dims. cbn. rewrite Hc, Hd, Hv, decl_cm_spec. reflexivity.
-  - rewrite Nat.eqb_refl. rewrite !fst_let. cbn [map length seq]. unfold step_next; rewrite Hd.
+  - rewrite Nat.eqb_refl. cbn [map length seq]. unfold step_next; rewrite Hd.
     destruct (IH (S c) n k Hn) as [E1 E2]. rewrite E1, E2. split; [|reflexivity].
     f_equal. unfold spec_sym, spec_dims, erase_sym, set_dims, own_dims. cbn. rewrite Hc, Hd, decl_cm_spec. reflexivity.
 Qed.
@@ -257,3 +267,218 @@ Proof.
   apply do_clause_ok in H. destruct H as (_ & _ & _ & H & _). congruence.
 Qed.
 
+
+(* ------------------------------------------------------------------------------------------ *)
+(* visibility: ctx.epub / ctx.epro (last match) against the effective visibility               *)
+(* ------------------------------------------------------------------------------------------ *)
+Lemma last_idx_acc lb X : forall i acc,
+  last_idx lb X i acc = match last_idx lb X i None with Some j => Some j | None => acc end.
+Proof.
+  induction X as [|[lb' rs] r IH]; intros i acc; cbn [last_idx]; [reflexivity|].
+  rewrite (IH (S i) (if label_eqb lb lb' then Some i else acc)), (IH (S i) (if label_eqb lb lb' then Some i else None)).
+  destruct (last_idx lb r (S i) None); [reflexivity|]. destruct (label_eqb lb lb'); reflexivity.
+Qed.
+
+Lemma last_idx_ge lb X : forall i j, last_idx lb X i None = Some j -> i <= j.
+Proof.
+  induction X as [|[lb' rs] r IH]; intros i j; cbn [last_idx]; [discriminate|].
+  rewrite last_idx_acc. destruct (last_idx lb r (S i) None) eqn:E.
+  - intros H; inversion H; subst. apply IH in E. lia.
+  - destruct (label_eqb lb lb'); intros H; inversion H; lia.
+Qed.
+
+Lemma last_idx_none lb X : forall i, last_idx lb X i None = None <-> has_label lb X = false.
+Proof.
+  induction X as [|[lb' rs] r IH]; intros i; cbn [last_idx has_label existsb fst]; [tauto|].
+  rewrite last_idx_acc. fold (has_label lb r). specialize (IH (S i)).
+  destruct (last_idx lb r (S i) None) eqn:E.
+  - split; [discriminate|]. intros H. apply orb_false_iff in H. destruct H as [_ H]. apply IH in H. discriminate.
+  - destruct IH as [IH _]. rewrite (IH eq_refl), orb_false_r. destruct (label_eqb lb lb'); split; congruence.
+Qed.
+
+Definition res_private (r : ores) : Prop :=
+  match r with RSyms ss => Forall (fun s => s_vis s = Private) ss | RExt e => x_vis e = Private | ROther => True end.
+
+Lemma set_private_id rs : Forall res_private rs -> map (set_vis_res Private) rs = rs.
+Proof.
+  induction 1 as [|r rs H _ IH]; [reflexivity|]. cbn [map]. rewrite IH. f_equal.
+  destruct r as [ss|e|]; cbn in *; [|destruct e; cbn in *; now subst|reflexivity].
+  f_equal. induction H as [|s ss Hs _ IHs]; [reflexivity|]. cbn [map]. rewrite IHs. f_equal.
+  destruct s; cbn in *; now subst.
+Qed.
+
+Fixpoint apply_vis (vs : list vis) (X : list (label * list ores)) : list (list ores) :=
+  match vs, X with
+  | v1 :: vr, (_, rs) :: r => map (set_vis_res v1) rs :: apply_vis vr r
+  | _, _ => []
+  end.
+
+Lemma assign_at_spec X : forall i epub epro,
+  (forall k, i <= k -> opt_is epub k = opt_is (last_idx Pub X i None) k) ->
+  (forall k, i <= k -> opt_is epro k = opt_is (last_idx Pro X i None) k) ->
+  Forall (fun s => Forall res_private (snd s)) X ->
+  assign_at epub epro X i = apply_vis (eff_vis (mkV false false false) X) X.
+Proof.
+  induction X as [|[lb rs] r IH]; intros i epub epro Hpub Hpro HX; [reflexivity|].
+  inversion HX as [|? ? Hrs Hr]; subst. cbn [snd] in Hrs.
+  cbn [assign_at eff_vis apply_vis v_allsec].
+  assert (Htail : forall lb' e, (forall k, i <= k -> opt_is e k = opt_is (last_idx lb' ((lb, rs) :: r) i None) k) ->
+                        forall k, S i <= k -> opt_is e k = opt_is (last_idx lb' r (S i) None) k).
+  { intros lb' e H k Hk. rewrite (H k ltac:(lia)). cbn [last_idx]. rewrite last_idx_acc.
+    destruct (last_idx lb' r (S i) None); [reflexivity|].
+    destruct (label_eqb lb' lb); cbn [opt_is]; [|reflexivity]. apply Nat.eqb_neq. lia. }
+  rewrite (IH (S i) epub epro (Htail Pub epub Hpub) (Htail Pro epro Hpro) Hr). f_equal.
+  assert (Hhead : forall lb' e, (forall k, i <= k -> opt_is e k = opt_is (last_idx lb' ((lb', rs) :: r) i None) k) ->
+                        opt_is e i = negb (has_label lb' r)).
+  { intros lb' e H. rewrite (H i (le_n i)). cbn [last_idx]. rewrite last_idx_acc.
+    destruct (last_idx lb' r (S i) None) eqn:E.
+    - pose proof (last_idx_ge _ _ _ _ E). cbn [opt_is].
+      destruct (has_label lb' r) eqn:Hl; [cbn; apply Nat.eqb_neq; lia|]. apply (proj2 (last_idx_none lb' r (S i))) in Hl. rewrite Hl in E. discriminate.
+    - apply (proj1 (last_idx_none lb' r (S i))) in E. rewrite E. destruct lb'; cbn; now rewrite Nat.eqb_refl. }
+  destruct lb.
+  - reflexivity.
+  - rewrite (Hhead Pub epub Hpub). destruct (has_label Pub r); cbn [negb]; [now rewrite set_private_id|reflexivity].
+  - rewrite (Hhead Pro epro Hpro). destruct (has_label Pro r); cbn [negb]; [now rewrite set_private_id|reflexivity].
+Qed.
+
+Lemma apply_vis_all X : map (fun s => map (set_vis_res (vis_of_label (fst s))) (snd s)) X
+                        = apply_vis (eff_vis (mkV true false false) X) X.
+Proof. induction X as [|[lb rs] r IH]; [reflexivity|]. cbn [map eff_vis apply_vis v_allsec fst snd]. now rewrite IH. Qed.
+
+Lemma eff_vis_flag {X : Type} v (S : list (label * X)) : eff_vis v S = eff_vis (mkV (v_allsec v) false false) S.
+Proof. induction S as [|[lb x] r IH]; [reflexivity|]. cbn [eff_vis v_allsec]. now rewrite IH. Qed.
+
+Lemma assign_vis_spec v X : Forall (fun s => Forall res_private (snd s)) X ->
+  assign_vis v X = apply_vis (eff_vis v X) X.
+Proof.
+  intros HX. unfold assign_vis. rewrite (eff_vis_flag v X). destruct (v_allsec v).
+  - apply apply_vis_all.
+  - apply assign_at_spec; auto.
+Qed.
+
+(* ------------------------------------------------------------------------------------------ *)
+(* elements, sections, the class                                                              *)
+(* ------------------------------------------------------------------------------------------ *)
+Definition spec_res (v : variant) (e : element) : ores :=
+  match e with
+  | EComp cl => RSyms (map (spec_sym v Private cl) (c_decls cl))
+  | EExt p m => RExt (mkE p Private (conv_args m))
+  | _ => ROther
+  end.
+Definition erase_res (r : ores) : ores := match r with RSyms ss => RSyms (map erase_sym ss) | x => x end.
+Definition names_el (e : element) : list string := match e with EComp cl => map d_name (c_decls cl) | _ => [] end.
+Definition imports_el (e : element) : list import := match e with EImp i => [i] | _ => [] end.
+Definition cname_el (e : element) : list string := match e with ECls _ n _ _ _ _ => [n] | _ => [] end.
+
+Fixpoint fold_imp (v : variant) (is_ : list import) (d : list (string * oimp)) : result (list (string * oimp)) :=
+  match is_ with
+  | [] => Ok d
+  | i :: r => match add_import v i d with Err e => Err e | Ok d' => fold_imp v r d' end
+  end.
+
+Lemma fold_imp_app v a : forall b d d1, fold_imp v a d = Ok d1 -> fold_imp v (a ++ b) d = fold_imp v b d1.
+Proof.
+  induction a as [|i r IH]; intros b d d1 H; cbn in *; [now inversion H|].
+  destruct (add_import v i d); [|discriminate]. now apply IH.
+Qed.
+
+Lemma mem_app x a b : mem x (a ++ b) = mem x a || mem x b.
+Proof. unfold mem. apply existsb_app. Qed.
+
+Lemma fresh_app a : forall seen b, fresh seen (a ++ b) = fresh seen a && fresh (seen ++ a) b.
+Proof.
+  induction a as [|x r IH]; intros seen b; cbn [fresh app]; [now rewrite app_nil_r|].
+  rewrite IH, <- app_assoc. cbn [app]. now rewrite andb_assoc.
+Qed.
+
+Lemma do_element_shape v path e k l r cls k' l' :
+  do_element v path e (k, l) = Ok ((r, cls), (k', l')) ->
+  erase_res r = spec_res v e
+  /\ (match r with RSyms ss => map s_order ss = seq (l_count l) (length (names_el e)) | _ => True end)
+  /\ k_seen k' = k_seen k ++ names_el e
+  /\ fresh (k_seen k) (names_el e) = true
+  /\ fold_imp v (imports_el e) (k_imports k) = Ok (k_imports k')
+  /\ k_classes k' = k_classes k ++ cname_el e.
+Proof.
+  destruct e as [cl|p m|i|ct n cm secs eqs algs]; cbn [do_element]; intros H.
+  - destruct (do_clause v cl (k_seen k, l)) as [[ss [seen' l1]]|] eqn:Hc; [|discriminate].
+    inversion H; subst. apply do_clause_ok in Hc. destruct Hc as (A & B & C & D & _).
+    cbn [erase_res spec_res names_el imports_el cname_el k_seen k_imports k_classes fold_imp].
+    rewrite A, app_nil_r, map_length. repeat split; auto.
+  - inversion H; subst. cbn. now rewrite !app_nil_r.
+  - destruct (add_import v i (k_imports k)) as [im|] eqn:Hi; [|discriminate].
+    inversion H; subst. cbn. rewrite Hi, !app_nil_r. repeat split; auto.
+  - destruct (mapM _ secs _) as [[srs [k1 l1]]|]; [|discriminate].
+    inversion H; subst. cbn. now rewrite !app_nil_r.
+Qed.
+
+Definition names_els (els : list element) := flat_map names_el els.
+Definition imports_els (els : list element) := flat_map imports_el els.
+Definition cnames_els (els : list element) := flat_map cname_el els.
+
+Lemma do_elements_shape v path els : forall k l rs k' l',
+  mapM (do_element v path) els (k, l) = Ok (rs, (k', l')) ->
+  map erase_res (map fst rs) = map (spec_res v) els
+  /\ k_seen k' = k_seen k ++ names_els els
+  /\ fresh (k_seen k) (names_els els) = true
+  /\ fold_imp v (imports_els els) (k_imports k) = Ok (k_imports k')
+  /\ k_classes k' = k_classes k ++ cnames_els els.
+Proof.
+  induction els as [|e r IH]; intros k l rs k' l' H; cbn [mapM] in H.
+  - inversion H; subst. cbn. now rewrite !app_nil_r.
+  - destruct (do_element v path e (k, l)) as [[[r1 c1] [k1 l1]]|] eqn:He; [|discriminate].
+    destruct (mapM (do_element v path) r (k1, l1)) as [[bs [k2 l2]]|] eqn:Hr; [|discriminate].
+    inversion H; subst. apply do_element_shape in He. apply IH in Hr.
+    destruct He as (A1 & _ & A2 & A3 & A4 & A5). destruct Hr as (B1 & B2 & B3 & B4 & B5).
+    unfold names_els, imports_els, cnames_els in *. cbn [map flat_map fst].
+    rewrite A1, B1, B2, A2, B5, A5, fresh_app, A3, <- A2, B3, <- !app_assoc.
+    rewrite (fold_imp_app _ _ _ _ _ A4), B4. repeat split; reflexivity.
+Qed.
+
+Definition sec_fun (v : variant) (path : list string) (sec : label * list element) (s : cstate * lst) :=
+  match mapM (do_element v path) (snd sec) s with
+  | Err x => Err x
+  | Ok (rs, s') => Ok ((fst sec, rs), s')
+  end.
+Definition all_els (secs : list (label * list element)) : list element := flat_map snd secs.
+
+Lemma do_sections_shape v path secs : forall k l srs k' l',
+  mapM (sec_fun v path) secs (k, l) = Ok (srs, (k', l')) ->
+  map (fun s => (fst s, map erase_res (map fst (snd s)))) srs = map (fun s => (fst s, map (spec_res v) (snd s))) secs
+  /\ k_seen k' = k_seen k ++ names_els (all_els secs)
+  /\ fresh (k_seen k) (names_els (all_els secs)) = true
+  /\ fold_imp v (imports_els (all_els secs)) (k_imports k) = Ok (k_imports k')
+  /\ k_classes k' = k_classes k ++ cnames_els (all_els secs).
+Proof.
+  induction secs as [|[lb els] r IH]; intros k l srs k' l' H; cbn [mapM] in H.
+  - inversion H; subst. cbn. now rewrite !app_nil_r.
+  - unfold sec_fun at 1 in H. cbn [fst snd] in H.
+    destruct (mapM (do_element v path) els (k, l)) as [[rs [k1 l1]]|] eqn:He; [|discriminate].
+    destruct (mapM (sec_fun v path) r (k1, l1)) as [[bs [k2 l2]]|] eqn:Hr; [|discriminate].
+    inversion H; subst. apply do_elements_shape in He. apply IH in Hr.
+    destruct He as (A1 & A2 & A3 & A4 & A5). destruct Hr as (B1 & B2 & B3 & B4 & B5).
+    unfold all_els, names_els, imports_els, cnames_els in *. cbn [map flat_map fst snd].
+    rewrite !flat_map_app. fold (names_els els) (imports_els els) (cnames_els els).
+    rewrite A1, B1, B2, A2, B5, A5, fresh_app, A3, <- A2, B3, <- !app_assoc.
+    rewrite (fold_imp_app _ _ _ _ _ A4), B4. repeat split; reflexivity.
+Qed.
+
+(* erasing commutes with the visibility assignment *)
+Lemma erase_set_vis vs r : erase_res (set_vis_res vs r) = set_vis_res vs (erase_res r).
+Proof. destruct r; cbn; [|reflexivity|reflexivity]. f_equal. rewrite !map_map. apply map_ext. reflexivity. Qed.
+
+Lemma apply_vis_erase vs : forall X,
+  map (map erase_res) (apply_vis vs X) = apply_vis vs (map (fun s => (fst s, map erase_res (snd s))) X).
+Proof.
+  induction vs as [|v1 vr IH]; intros [|[lb rs] r]; try reflexivity.
+  cbn [apply_vis map fst snd]. rewrite IH. f_equal. rewrite !map_map. apply map_ext. intros; apply erase_set_vis.
+Qed.
+
+Lemma eff_vis_map {X Y : Type} v (f : X -> Y) (S : list (label * X)) :
+  eff_vis v (map (fun s => (fst s, f (snd s))) S) = eff_vis v S.
+Proof.
+  induction S as [|[lb x] r IH]; [reflexivity|]. cbn [map eff_vis fst snd]. rewrite IH. f_equal.
+  assert (H : forall lb', has_label lb' (map (fun s : label * X => (fst s, f (snd s))) r) = has_label lb' r).
+  { intros lb'. unfold has_label. rewrite existsb_map_compat. reflexivity. }
+  now rewrite !H.
+Qed.
